@@ -28,9 +28,9 @@ T = {
  'C07': ('Machine-checked theorems for ARBITRARY input bytes (no well-formedness): one symbol step of the decoder on any world satisfying the invariant (registers < 2^32, probabilities in [31,2017], table shapes, window bytes < 256, dictionary > 0) never panics - no integer overflow/underflow, no out-of-bounds table or window index, no division by zero - and re-establishes the invariant, which holds initially; a symbol step consumes at most 20 bytes. Panics, hangs and heap growth of every public entry point are additionally checked on random and mutated inputs in overflow-checked and release builds under catch_unwind, a watchdog and a counting allocator.',
          'Coq proof (state invariants of the decoder core) + differential correspondence + catch_unwind/watchdog/allocator measurements',
          'Partial: lifting the invariant through process_mode / LZMA2 / XZ loops and the fuel (termination) bound are not yet theorems; real heap and wall-clock are measured, not proved.'),
- 'C08': ('Machine-checked theorems about process_mode in Finish mode: with a size in effect success implies exactly that many bytes were produced (so truncation, an early end marker and an overshooting match are errors); with no size in effect success implies that the end marker was decoded (rep0 = 0xFFFFFFFF) and the range coder ended with code = 0; decoding never changes the size in effect. Header consumption (13/13/5 bytes), override rules and the streaming API are checked by the differential run over the full option matrix.',
+ 'C08': ('Machine-checked theorems about process_mode in Finish mode: with a size in effect success implies exactly that many bytes were produced (so truncation, an early end marker and an overshooting match are errors); with no size in effect success implies that the end marker was decoded (rep0 = 0xFFFFFFFF) and the range coder ended with code = 0; decoding never changes the size in effect. The three header options are proved to consume 13/13/5 bytes for every reader fragmentation and to select the size in effect as specified (caller-supplied value always overrides), and the size rule is proved end to end through lzma_decompress_with_options. The streaming API is checked by the differential run over the full option matrix.',
          'Coq proof (loop invariants of process_mode) + differential correspondence',
-         'The 13/13/5 header-consumption clause is covered by the correspondence run, not yet by a theorem.'),
+         'The link from the window length to the bytes in the sink is the window theorem (C09/C10); the streaming API is covered by the correspondence run.'),
  'C09': ('Machine-checked refinement theorems: the model of LzCircularBuffer (lazy growth, flush on wrap, wrapping/overlapping copy loop) and of LzAccumBuffer refine a plain history list; a copy or matched-literal read succeeds iff 1 <= dist <= min(produced, dict) (resp. bytes since the last dictionary reset) and then yields exactly the LZ77 copy of the history, otherwise Err with the window untouched - so no zero default or stale lap content is ever observed. Tied to the crate by programs with one out-of-window copy at every position relative to the wrap point.',
          'Coq proof (refinement invariant circular/accumulating window vs history list) + differential correspondence',
          'Stated at the window (LzBuffer) level; the end-to-end iff with sem awaits the C01 composition.'),
